@@ -24,6 +24,11 @@ pub fn run(ctx: &mut Ctx) {
     for case in ctx.cases("dimacs", 900, true) {
         ctx.run_case("dimacs", case, dimacs_case);
     }
+    // DIMACS texts at the edge of the format: no clause at all (`p cnf n 0`), zero variables,
+    // empty clauses, and CNFs printed under their own counts (F19)
+    for case in ctx.cases("dimacs_degenerate", 60, true) {
+        ctx.run_case("dimacs_degenerate", case, dimacs_degenerate);
+    }
     for case in ctx.cases("sexpr", 900, true) {
         ctx.run_case("sexpr", case, sexpr_case);
     }
@@ -176,6 +181,63 @@ fn dimacs_case(ctx: &mut Ctx, rng: &mut Rng) {
     }
     if ctx.wants_sample() {
         ctx.sample(json!({"regime": "dimacs", "input": info, "function": t.hex()}));
+    }
+}
+
+/// `Cnf::from_dimacs` on texts with zero counts in the problem line and with empty clauses
+fn dimacs_degenerate(ctx: &mut Ctx, rng: &mut Rng) {
+    // (declared variables, clauses as 1-based signed numbers)
+    let nv = rng.below(5);
+    let mut clauses: Vec<Vec<i64>> = Vec::new();
+    match rng.below(4) {
+        0 => {} // no clause
+        1 => clauses.push(vec![]), // only the empty clause
+        2 => {
+            for _ in 0..rng.range(1, 3) {
+                let w = rng.below(3);
+                clauses.push((0..w).map(|_| (rng.range(1, usize::max(nv, 1)) as i64) * if rng.bool() { 1 } else { -1 }).collect());
+            }
+        }
+        _ => {
+            // what the library itself prints for a conditioned CNF: to_dimacs under the CNF's own counts
+            let st = CnfStyle { max_vars: 4, max_clauses: 3, max_width: 2, allow_empty_clause: true, allow_empty_cnf: true, allow_taut: false, allow_dup: false };
+            let cl = random_clauses(&st, rng);
+            for c in &cl {
+                clauses.push(c.iter().map(|(v, p)| (*v as i64 + 1) * if *p { 1 } else { -1 }).collect());
+            }
+        }
+    }
+    let used = clauses.iter().flatten().map(|x| x.unsigned_abs() as usize).max().unwrap_or(0);
+    let declared = usize::max(used, if clauses.iter().all(|c| c.is_empty()) { nv } else { used });
+    let mut text = String::new();
+    if rng.chance(1, 3) {
+        text.push_str("c degenerate\n");
+    }
+    text.push_str(&format!("p cnf {} {}\n", declared, clauses.len()));
+    for c in &clauses {
+        for l in c {
+            text.push_str(&format!("{} ", l));
+        }
+        text.push_str("0\n");
+    }
+    ctx.count("dimacs_degenerate_texts", 1);
+    if clauses.is_empty() {
+        ctx.count("dimacs_texts_without_clauses", 1);
+    }
+    if declared == 0 {
+        ctx.count("dimacs_texts_with_zero_variables", 1);
+    }
+    ctx.case_eval(Some(crate::rng::hash_str(&text)));
+    let cnf = Cnf::from_dimacs(&text);
+    let got: Vec<BTreeSet<(usize, bool)>> = cnf.clauses().iter().map(|cl| cl.iter().map(|l| (l.label().value_usize(), l.polarity())).collect()).collect();
+    let exp: Vec<BTreeSet<(usize, bool)>> = clauses.iter().map(|c| c.iter().map(|l| (l.unsigned_abs() as usize - 1, *l > 0)).collect()).collect();
+    let mut g = got.clone();
+    g.sort();
+    let mut e = exp.clone();
+    e.sort();
+    if g != e {
+        ctx.violation("parse.dimacs.cnf", "Cnf::from_dimacs does not return the clauses of the text (zero counts / empty clauses)",
+            json!({"text": text, "observed": format!("{:?}", got), "expected": format!("{:?}", exp)}));
     }
 }
 
